@@ -102,6 +102,11 @@ def case_modes(case):
         for off in (0, 3):
             sub = np.ascontiguousarray(X[:, off : off + k_])
             r.close("vector at a point independent of the number of points requested together", np.array(srf(sub)), U[:, off : off + k_], rtol=1e-12, atol=1e-13, npoints=k_, **extra)
+    # a second request at positions that agree with the first within numpy.allclose is answered at the new positions
+    far = X + np.array([4.5e5, 5.4e6, 120.0])[:d, None]
+    u_far0 = np.array(srf(far))
+    far2 = far + 0.5  # 0.5 is inside the relative tolerance of the large coordinates
+    r.close("request at positions within numpy.allclose of the previous ones is evaluated at the new positions", np.array(srf(far2)), np.array(gs.SRF(m, generator="VectorField", mode_no=N, seed=case["seed"], mean_velocity=mv, sampling=case.get("sampling", "auto"))(far2)), rtol=1e-9, atol=1e-9 * amp, **extra)
     # the same field on a meshio mesh: point data and (default) cell data per cell block
     import meshio
 
@@ -113,6 +118,11 @@ def case_modes(case):
     srf.mesh(mesh, points="points", direction=direction, name="u")
     r.close("vector field stored as meshio point data == field at the mesh points (points x components)", np.array(mesh.point_data["u"]), U[:, :8].T, rtol=1e-12, atol=1e-13, **extra)
     srf.mesh(mesh, direction=direction, name="uc")
+    # axis letters in another order: the first letter is the first field axis (the mean-flow axis)
+    dstr = "yx" if d == 2 else "zxy"
+    sel = ["xyz".index(c_) for c_ in dstr]
+    srf.mesh(mesh, points="points", direction=dstr, name="uperm")
+    r.close("mesh(direction=<letters in another order>) == field at the coordinates taken in that order", np.array(mesh.point_data["uperm"]), np.array(srf(mp.T[sel])).T, rtol=1e-12, atol=1e-13, direction=dstr, **extra)
     for bi, (ctype, conn) in enumerate(blocks):
         cen = np.array([mp[c].mean(axis=0) for c in conn]).T[:d]
         r.close("vector field stored as meshio cell data == field at the centroids of that block (cells x components)", np.array(mesh.cell_data["uc"][bi]), np.array(srf(cen)).T, rtol=1e-12, atol=1e-13, block=ctype, **extra)
